@@ -2852,6 +2852,13 @@ def _join_tracking_post(ctx):
             exp = e.data["kwargs"].get("expected_phase", SNone)
             goals.append((f"store{k_}.expected-phase-is-the-loaded-status", z3.Implies(g, I.ops.eq(exp, I.enum_getattr(SEnum(WS, ld["status"].t), "name")))))
     goals += [(f"version.{sfx}", gl) for sfx, gl in P.version_from_load(ctx)]
+    # a lost compare-and-swap is never swallowed: the last write attempt of the call either succeeded or its ConcurrencyError
+    # reaches the caller -- a branch whose record was refused is retried on fresh data or reported, not dropped
+    if stores:
+        last_failed = bool(stores[-1][1].data.get("failed"))
+        escaped = ctx.exc is not None and "ConcurrencyError" in I.exc_class_names(ctx.exc)
+        reloaded = any(e.kind in ("load", "load_failed") for e, _g in flat[stores[-1][0] + 1:])  # the next attempt re-read the row
+        goals.append(("a-refused-write-is-retried-or-raised", z3.BoolVal((not last_failed) or escaped or reloaded)))
     # no lost update: what is written under _completed_branches extends the list READ FROM THE ROW BEING WRITTEN (the fresh
     # load of this attempt) -- every entry of that list is kept, in place -- and ends with the completing stage's ref_id
     from pyvc.values import vlist_get, vlist_len
